@@ -45,6 +45,23 @@ def T():
             "CX": q("CX", [ns.Q, ns.Q], [ns.Q, ns.Q]), "Measure": q("Measure", [ns.Q], [ns.Q, ns.B]),
             "Rz": q("Rz", [ns.Q, FLOAT_T], [ns.Q]), "Triple": q("Triple", [ns.B], [ns.B, ns.B, ns.B]),
         }
+        # the same extension defined through the public ext API: ExtOp instances (incl. a row-polymorphic definition)
+        from semver import Version
+        from hugr import ext as hext
+        qx = hext.Extension("verif.q", Version(0, 1, 0))
+        for name, mk in ns.QOPS.items():
+            sig = mk().signature
+            qx.add_op_def(hext.OpDef(name, hext.OpDefSig(F(list(sig.input), list(sig.output)))))
+        rparam = tys.ListParam(tys.TypeTypeParam(tys.TypeBound.Copyable))
+        qx.add_op_def(hext.OpDef("Fanout", hext.OpDefSig(tys.PolyFuncType([rparam], F([ns.B], [tys.RowVariable(0, tys.TypeBound.Copyable)])))))
+        ns.QEXT = qx
+
+        def qext(name):
+            d = qx.get_op(name)
+            sig = ns.QOPS[name]().signature
+            return d.instantiate([], F(list(sig.input), list(sig.output)))
+        ns.qext = qext
+        ns.fanout = lambda n: qx.get_op("Fanout").instantiate([tys.SequenceArg([tys.TypeTypeArg(ns.B)] * n)], F([ns.B], [ns.B] * n))
         # an extension no registry knows until the last resolution step (C11 workloads only)
         ns.UT = tys.Opaque("ut", tys.TypeBound.Copyable, [tys.TypeTypeArg(Array(int_t(5), 2))], "verif.u")
         ns.UINT = tys.Opaque("int", tys.TypeBound.Copyable, [tys.BoundedNatArg(5)], "verif.u")  # same id as arithmetic.int.types.int
@@ -915,6 +932,12 @@ class BuilderSim:
                 opts.append(("untrack_wire(untracked index)", lambda: a.b.untrack_wire(bad)))
             if a.kind == "func" and a.required is not None and a.open_children == 0 and not any(w.var for w in a.pool):
                 opts.append(("Function.set_outputs() with no wires although outputs are declared", (lambda: a.b.set_outputs()) if a.required else None))
+                cop = [w for w in a.pool if not w.lin]
+                if cop:
+                    # as many wires as declared, at least one of another type (copyable wires: nothing is consumed)
+                    wrong = [next((w for w in cop if w.ty != ty), None) for ty in a.required] + ([cop[0]] if not a.required else [])
+                    if wrong and all(w is not None for w in wrong):
+                        opts.append(("Function.set_outputs(wires of other types than declared)", lambda: a.b.set_outputs(*[w.wire for w in wrong])))
         opts = [o for o in opts if o[1] is not None]
         if not opts:
             return
@@ -950,20 +973,22 @@ class BuilderSim:
             0 if deep or not f.get("loop", True) else 1,  # tail loop
             0 if deep or not f.get("cfg", True) else 1,  # cfg
             2 if len(a.nodes) >= 2 else 0,  # state order
-            2 if (self.funcs and f.get("calls", True)) else 0,  # call / load_function
+            2 if (f.get("calls", True) and any(self.in_scope(x, a) for x in self.funcs)) else 0,  # call / load_function
             w_close,
             0 if deep or not f.get("insert", False) else 1,  # insert a detached builder
             1 if f.get("holes", True) else 0,  # scratch node added now, deleted later: freed indices get reused
+            0 if deep or not f.get("local_funcs", True) or not f.get("calls", True) else 1,  # a function defined inside this region
         ]
         k = ch.weighted(weights, "actor-step")
         [self.step_leaf, self.step_load, self.step_nested, self.step_cond, self.step_loop, self.step_cfg,
-         self.step_order, self.step_call, lambda a: a.close(), self.step_insert, self.step_scratch][k](a)
+         self.step_order, self.step_call, lambda a: a.close(), self.step_insert, self.step_scratch, self.step_local_func][k](a)
 
     # ---- steps ------------------------------------------------------------------------------------------
     def maybe_meta(self):
         ch = self.ctx.ch
         if self.features.get("meta", True) and ch.coin(1, 5, "meta"):
-            return {"m": ch.pick([1, "s", [1, {"x": None}], {"k": "né"}, 2 ** 60, 1.5, True, "a<b & c>d"], "meta-val")}
+            import copy
+            return {"m": copy.deepcopy(ch.pick([1, "s", [1, {"x": None}], {"k": "né"}, 2 ** 60, 1.5, True, "a<b & c>d"], "meta-val"))}
         return None
 
     def step_leaf(self, a: Actor):
@@ -973,6 +998,8 @@ class BuilderSim:
         has = a.can_find
         if has(t.B):
             cands += ["Not", "Triple"]
+            if self.features.get("extops", True):
+                cands.append("Fanout")
         if has(t.I5):
             cands.append("DivMod")
         cands += ["H", "CX", "Measure", "QAllocFree"]
@@ -991,8 +1018,21 @@ class BuilderSim:
             cands.append("CallIndirect")
         op = ch.pick(cands, "leaf-op")
         md = self.maybe_meta()
+        if self.features.get("extops", True) and op in ("H", "CX", "Measure", "QAllocFree", "Rz", "Triple") and ch.coin(1, 2, "as-ExtOp"):
+            # the definition-backed form of the same operation (hugr.ext API), not the opaque Custom form
+            self.ctx.probe("ext_api_op")
+            name = "QAlloc" if op == "QAllocFree" else op
+            sig = t.QOPS[name]().signature
+            a.add_op(t.qext(name), [a.find(x) for x in sig.input], list(sig.output), md, name)
+            return
         if op == "Not":
             a.add_op(t.Not, [a.find(t.B)], [t.B], md, "Not")
+        elif op == "Fanout":
+            n = ch.draw(4, "fanout-n")
+            a.add_op(t.fanout(n), [a.find(t.B)], [t.B] * n, md, "Fanout")
+            self.ctx.probe("row_polymorphic_ext_op")
+            if n != 1:
+                self.ctx.probe("multi_output_op")
         elif op == "Triple":
             a.add_op(t.QOPS["Triple"](), [a.find(t.B)], [t.B] * 3, md, "Triple")
             self.ctx.probe("multi_output_op")
@@ -1176,6 +1216,39 @@ class BuilderSim:
         self.actors.append(CfgCtl(self, a, b, [w.ty for w in ws], out_row))
         self.ctx.probe("cfg")
 
+    def step_local_func(self, a: Actor):
+        """define_function with a parent inside a dataflow region (a FuncDefn is a scoped definition): callable from this
+        region and everything nested in it, including its own body."""
+        ch = self.ctx.ch
+        t = T()
+        self.nfuncs = getattr(self, "nfuncs", 0) + 1
+        name = f"local{self.nfuncs}"
+        ins, outs = self.gen_row(2), self.gen_row(2)
+        fb = a.call("define_function(parent=region)", a.b.define_function, name, ins, outs, None, a.b.parent_node)
+        body = Actor(self, "func", fb, ins, None, None, required=outs)
+        body.def_site = a
+        body.depth = a.depth + 1
+        self.actors.append(body)
+        a.open_children += 1  # the enclosing region waits for the body (its calls need a complete callee anyway)
+
+        def done(actor, out_tys, a=a):
+            a.open_children -= 1
+        body.on_close = done
+        self.funcs.append({"node": fb.parent_node, "name": name, "actor": body, "calls": 0, "poly_kind": None, "scope": a,
+                           "sig": t.tys.PolyFuncType([], t.tys.FunctionType(ins, outs)), "callable": lambda: True})
+        self.ctx.probe("function_local_to_a_region")
+
+    def in_scope(self, f, a):
+        sc = f.get("scope")
+        if sc is None:
+            return True
+        x = a
+        while x is not None:
+            if x is sc:
+                return True
+            x = x.parent if x.parent is not None else getattr(x, "def_site", None)
+        return False
+
     def step_scratch(self, a: Actor):
         """Graph-level edit in the middle of a builder program: add an unused constant definition, or delete one added
         earlier.  The HUGR stays valid (a Const is a scoped definition, unused it has no edges); the freed index is
@@ -1221,6 +1294,25 @@ class BuilderSim:
         op = sub.hugr[sub.hugr.root].op
         out_tys = list(op.outer_signature().output)
         wires = [w.wire for w in ws]
+        if self.features.get("failed_inserts") and kind in ("dfg", "cfg") and ch.coin(1, 3, "failed-insert"):
+            # one more wire than the container takes, coming from a region that is not an ancestor: refused with
+            # NoSiblingAncestor after the copy has been made (the leftover is the caller's business, the graph stays consistent)
+            anc = []
+            x = a
+            while x is not None:
+                anc.append(x)
+                x = x.parent if x.parent is not None else getattr(x, "def_site", None)
+            others = [o for o in self.actors if isinstance(o, Actor) and o not in anc and any(not w.lin for w in o.pool)]
+            if others:
+                bad = next(w for w in others[ch.draw(len(others), "bad-src")].pool if not w.lin)
+                try:
+                    (a.b.insert_nested if kind == "dfg" else a.b.insert_cfg)(sub.root_actor.b if kind == "dfg" else sub.root_builder, *wires, bad.wire)
+                    outcome = "returned"
+                except Exception as e:  # noqa: BLE001
+                    outcome = type(e).__name__
+                self.ctx.ev(a.id, f"insert_{kind} with a wire from a foreign region", None, outcome, fault="failed-insert")
+                self.ctx.fault("failed_insert_then_continue")
+                return
         if kind == "dfg":
             n = a.call("insert_nested", a.b.insert_nested, sub.root_actor.b, *wires)
         elif kind == "cfg":
@@ -1250,7 +1342,7 @@ class BuilderSim:
     def step_call(self, a: Actor):
         ch = self.ctx.ch
         t = T()
-        fs = [f for f in self.funcs if f["callable"]()]
+        fs = [f for f in self.funcs if f["callable"]() and self.in_scope(f, a)]
         if not fs:
             self.ctx.ev(a.id, "noop")
             return
@@ -1510,9 +1602,14 @@ def run_insert_leg(ctx, probe_handle=None):
     sig = op.outer_signature()
     in_tys = list(sig.input)
     n_out = len(sig.output)
-    # host: a Dfg with some history (extra ops, a hole in the index space) and the needed input wires
+    # host: a Dfg with some history (extra ops, a hole in the index space) and the needed input wires;
+    # or the If / Else branch of a conditional inside such a Dfg (the wires then come from the outer region)
     extra = [t.B, t.Q][:ch.draw(3, "host-extra")]
-    host = Dfg(*in_tys, *extra)
+    outer = Dfg(*in_tys, *extra)
+    host = outer
+    host_kind = ch.pick(["dfg", "dfg", "if", "else"], "host-kind")
+    if any(is_linear(x) for x in in_tys):
+        host_kind = "dfg"  # a linear wire cannot enter a branch as a non-local edge
     ctx.ev("host", "Dfg", [repr(x) for x in [*in_tys, *extra]])
     if ch.coin(1, 2, "host-hole"):
         n1 = host.hugr.add_node(t.ops.Noop(t.B), host.parent_node)
@@ -1521,12 +1618,34 @@ def run_insert_leg(ctx, probe_handle=None):
         ctx.ev("host", "add/add/delete (hole)")
         ctx.probe("insert_into_freed_indices")
     wires = list(host.inputs()[:len(in_tys)])
+    if host_kind != "dfg":
+        cw = outer.load(t.val.TRUE)
+        if_b = outer.add_if(cw)
+        if host_kind == "if":
+            host = if_b
+        else:
+            if_b.set_outputs()
+            host = if_b.add_else()
+        ctx.ev("host", f"insertion happens inside the {host_kind} branch of a conditional")
+        ctx.probe("insert_host:" + host_kind)
     if ch.coin(1, 2, "host-preop"):
         # route one copyable input through a Noop first so that the wire does not come from Input
         for i, ty in enumerate(in_tys):
             if not is_linear(ty):
-                wires[i] = host.add_op(t.ops.Noop(), wires[i]).out(0)
+                wires[i] = outer.add_op(t.ops.Noop(), wires[i]).out(0)
                 break
+    if kind in ("dfg", "cfg") and ch.coin(1, 3, "failed-insertion-first"):
+        # fault, then workload: an insertion refused because of one foreign wire (NoSiblingAncestor); the caller catches it
+        other = Dfg(t.B)
+        try:
+            if kind == "dfg":
+                host.insert_nested(sb, *wires, other.inputs()[0])
+            else:
+                host.insert_cfg(sub.root_builder, *wires, other.inputs()[0])
+            ctx.ev("host", f"insert_{kind}(+ foreign wire)", None, "returned")
+        except Exception as e:  # noqa: BLE001
+            ctx.ev("host", f"insert_{kind}(+ foreign wire)", None, type(e).__name__)
+        ctx.fault("failed_insertion_before_the_valid_one")
     a_before = iso.observe(host.hugr)
     b_before = iso.observe(sub.hugr)
     ctx.steps += 1
@@ -1562,7 +1681,24 @@ def run_insert_leg(ctx, probe_handle=None):
             links[l] -= 1
             if links[l] == 0:
                 del links[l]
+    # a wire that comes from an enclosing region (Ext edge) is attached together with its state-order edge from the
+    # source node to the sibling container the insertion point lies in: part of "the given wires attached"
+    hh = host.hugr
+    for w in wires:
+        src = w.out_port().node
+        sp = hh[src].parent
+        c = node
+        while c is not None and hh[c].parent != sp:
+            c = hh[c].parent
+        if c is not None and c.idx != node.idx:
+            l = (src.idx, -1, c.idx, -1)
+            if links[l] > a_before["links"][l]:
+                links[l] -= 1
+                if links[l] == 0:
+                    del links[l]
+                ctx.probe("insert_wire_is_ext_edge")
     a_after_wo = dict(a_after, links=links)
+    # Ext wires from the outer region bring their state-order edge to the branch's container; take it out of the frame view
     iso.check_insert(ctx, a_before, b_before, a_after_wo, b_after, mp, host.parent_node.idx, how=how)
     if sorted(mp.values()) != [mp[k] for k in sorted(mp)]:
         ctx.probe("non_monotone_mapping")
